@@ -610,6 +610,15 @@ theorem readLiterals_strip : (xs : List Datum) → (τ : Store) →
     · simp only [readLiterals_strip xs τ1]
 end
 
+/-- reading an atom does not touch the store -/
+theorem readLiteral_prim_store (τ : Store) (d : Datum) (p : Prim)
+    (h : d.strip = .prim p none) : (Eval.readLiteral τ d).2 = τ := by
+  cases d with
+  | prim q l =>
+    simp only [Eval.readLiteral]
+    cases Eval.evalPrim q <;> rfl
+  | _ => simp [Datum.strip] at h
+
 theorem Extends.refl (σ : Store) : Extends σ σ := fun _ _ h => h
 
 theorem Extends.trans {a b c : Store} (h1 : Extends a b) (h2 : Extends b c) : Extends a c :=
